@@ -6,8 +6,10 @@
    line formats (inputs):
      1 flags mok appc code rune mod event shifted base ntext text...   one case
      2 flags mok appc code rune shifted base ntext text...             bucket: all 256 modifier masks x events 0..3
+     3 (fields of 1)                                                    the same event through SendKey, short-writing backend
    outputs: the input line followed by -1 and
      tag 1: the bytes of encodeKey
+     tag 3: the bytes that reached the backend, then -3, the count returned, the error flag
      tag 2: the FNV-1a/32 hash of (len, bytes...) of the 1024 encodings, mods outer loop, events inner loop *)
 From Coq Require Import List ZArith Bool.
 From Termemu Require Import Base KeyKinds Gen_KeyTables Keys.
@@ -32,6 +34,11 @@ Definition run_line (line : list Z) : list Z :=
   | 1 :: flags :: mok :: appc :: code :: rune :: mod_ :: event :: shifted :: base :: n :: text =>
       line ++ -1 :: encode_key (mkKst flags mok (negb (appc =? 0)))
                                (mkEv code rune mod_ event shifted base (zfirstn n text))
+  | 3 :: flags :: mok :: appc :: code :: rune :: mod_ :: event :: shifted :: base :: n :: text =>
+      (* SendKey through Terminal.Write (Model/Mouse.v [term_write]) on a backend that takes 1..4 bytes per call and
+         never fails: every byte arrives, the count returned is the length, no error *)
+      let out := encode_key (mkKst flags mok (negb (appc =? 0))) (mkEv code rune mod_ event shifted base (zfirstn n text)) in
+      line ++ -1 :: out ++ [-3; zlen out; 0]
   | 2 :: flags :: mok :: appc :: code :: rune :: shifted :: base :: n :: text =>
       line ++ [-1; bucket_hash (mkKst flags mok (negb (appc =? 0))) code rune shifted base (zfirstn n text)]
   | _ => line ++ [-2]
